@@ -11,8 +11,11 @@ LEVEL = "proof"
 LEAN_MODULES = ['Sonic.Props.C16']
 REQUIRED_THEOREMS = ["Sonic.Props.C16." + n for n in ["C16_inv", "C16_inv_explicit", "C16_accounting", "C16_zero", "C16_zero_pool", "C16_realloc_prefix",
                                                          "C16_realloc_runs", "C16_contents_stable", "C16_shared_lifetime", "C16_mem_ok", "C16_pattern"]]
-CONFIGS = [("avx2", "prod"), ("avx2", "san")]
-CONFIGS_THOROUGH = CONFIGS + [("sse", "prod")]
+LOCKED = ("-DSONIC_LOCKED_ALLOCATOR",)
+# the third configuration is the locked-allocator build: the same sequential histories must behave identically there, and a few
+# multi-threaded runs on one shared pool check that "copies behave as one shared pool" survives concurrent use (see C17 for the races)
+CONFIGS = [("avx2", "prod"), ("avx2", "san"), ("avx2", "prod", LOCKED)]
+CONFIGS_THOROUGH = CONFIGS + [("sse", "prod"), ("avx2", "tsan", LOCKED)]
 RULE = ("sequences of 10..60 Malloc / Realloc / Clear / copy / move / copy-assign / move-assign / destroy operations over up to 8 handles "
         "(several pools per case), sizes from {0,1,7,8,9, cap-8, cap, cap+1, 2*cap, random up to 70000}, chunk capacities 1/8/64/100/1024/65536, "
         "simple and adaptive chunk policies, default and user-buffer construction (aligned and misaligned, minimal size); every block is "
@@ -39,6 +42,9 @@ def generate(rng, tier):
     for _ in range(800 if quick else 80000):
         lines, exp = PG.gen_case(rng, rng.choice([10, 20, 40, 60]))
         cases.append({"lines": lines, "exp": exp, "cls": lines[1].split()[2] + "/" + lines[1].split()[0], "nontrivial": len(lines) >= 10})
+    for _ in range(6 if quick else 200):
+        cases.append({"lines": [f"thr-pool {rng.choice([4, 8])} {rng.choice([1000, 3000])} {rng.randrange(1, 10 ** 6)}"], "exp": [{}], "cls": "locked-pool-threads", "nontrivial": True})
+        cases.append({"lines": [f"thr-poolcopy {rng.choice([4, 8])} {rng.choice([1000, 3000])} {rng.randrange(1, 10 ** 6)}"], "exp": [{}], "cls": "locked-pool-threads", "nontrivial": True})
     return cases
 
 
@@ -46,6 +52,9 @@ PTR = re.compile(r"^c(\d+)\+(\d+)$")
 
 
 def judge(case, mo, io, cfg):
+    if case["lines"][0].startswith("thr-"):
+        from props import c17
+        return c17.judge(case, mo, io, cfg)
     live = {}   # blk# -> (chunk, off, alignedsize)
     for n, (ln, e, m, i) in enumerate(zip(case["lines"], case["exp"], mo, io)):
         where = f"step {n} `{ln}`"
